@@ -112,6 +112,9 @@ func flatten(w *WF) WF {
 }
 
 func c10Body(sc *WF) Verdict {
+	if sc.recursive() {
+		return c10Recursive(sc)
+	}
 	flat := flatten(sc)
 	xn := newWfExec(sc)
 	xf := newWfExec(&flat)
@@ -171,6 +174,41 @@ func c10Body(sc *WF) Verdict {
 	}
 	sortStrings(cl)
 	return ok(nontrivial, cl...)
+}
+
+// c10Recursive: a flow that (transitively) contains itself has no finite flattening (the
+// equivalent machine is a pushdown automaton); the recursive reference interpreter is the
+// oracle there: same callbacks, same store, same outcome, same store pointer everywhere.
+func c10Recursive(sc *WF) Verdict {
+	x := newWfExec(sc)
+	m := newWfModel(sc)
+	nontrivial := false
+	for r := 0; r < sc.runs(); r++ {
+		rr := x.run(context.Background())
+		mr := m.run()
+		if rr.Panic != "" {
+			return bad("C10:panic", "recursive arrangement panicked: %s", rr.Panic)
+		}
+		tr := x.snapshot()[rr.Lo:rr.Hi]
+		for _, e := range tr {
+			if (e.Phase == "prep" || e.Phase == "post") && e.Store != rr.Store {
+				return bad("C10:store-identity", "%s ran on store %p, the outermost flow was given %p", e, e.Store, rr.Store)
+			}
+		}
+		if !sameShape(tr, mr.Trace) {
+			return bad("C10:recursive", "run %d: a flow nested inside itself ran %v, the reference interpreter %v", r, traceStrings(tr), modelStrings(mr.Trace))
+		}
+		if (rr.Err == nil) != mr.OK {
+			return bad("C10:recursive-outcome", "run %d: err=%v, reference ok=%v", r, rr.Err, mr.OK)
+		}
+		if !intsEq(storePath(rr.Store), mr.Path) {
+			return bad("C10:recursive-store", "run %d: store path %v, reference %v", r, storePath(rr.Store), mr.Path)
+		}
+		if mr.InnerBranch > 0 {
+			nontrivial = true
+		}
+	}
+	return ok(nontrivial, "recursive")
 }
 
 func checkC10(t *testing.T, sc WF) Verdict { return c10Body(&sc) }
@@ -242,6 +280,9 @@ func TestC10(t *testing.T) {
 	// denser inner flows: fewer leaves, more flows, richer action alphabet
 	g2 := wfGen{MaxLeaves: 3, MaxFlows: 4, Actions: []string{"a", "b", "c", ""}, MaxN: 1, MaxVisits: 4, FuelMax: 20, PreferFlows: true}
 	rapidPart(r, "rand-dense", r.pick(3000, 50000), g2.gen, checkC10)
+	// flows that contain themselves / each other (bounded by the fuel)
+	g3 := wfGen{MaxLeaves: 3, MaxFlows: 3, Actions: []string{"a", "b", ""}, PErr: 10, PExecErr: 60, MaxN: 2, MaxVisits: 4, FuelMax: 10, Recursion: true, PreferFlows: true}
+	rapidPart(r, "recursive", r.pick(3000, 50000), g3.gen, checkC10)
 }
 
 func init() { registerReplay("C10", checkC10) }
